@@ -35,6 +35,15 @@ def run(ctx):
     s52(ctx, prog, T)
     s53(ctx, prog)
     s56(ctx, prog)
+    s510(ctx, prog)
+    # S5.11 every separator character reaches the tree builder as its own token: stage 2 of the tokenizer passes complete tokens through
+    # unchanged, whatever stands before or after them (the C07 R7.3 statement about complete tokens, reported here - `1;;2` has an absent
+    # element only if both `;` arrive)
+    from rules import toksem
+    try:
+        toksem.check_whitespace(_OnlyInstances(ctx, 'S5.11', ['Whitespace-token']), prog, 'S5.11')
+    except (ValueError, tables.TableError) as e:
+        ctx.unrecognised('S5.11', 'partial_tokens_to_tokens', 'shape', str(e))
     # S5.9 "with earlier elements' effects applied" holds through every mutable entry point: the typed `_mut` and context-free forms
     # reach the mutable root evaluator exactly once (the base-call part of the C12 entry-point analysis)
     from rules.c08 import r87
@@ -551,6 +560,45 @@ def s52(ctx, prog, T):
     ctx.floor('S5.2', 'collapse_all_absorb_steps', m, 1)
 
 
+REMOVERS = ('pop', 'remove', 'swap_remove', 'truncate', 'clear', 'drain', 'retain', 'retain_mut', 'split_off', 'pop_if', 'dedup', 'dedup_by', 'dedup_by_key', 'take')
+
+
+def s510(ctx, prog):
+    """S5.10 collapsing never drops an element: on every path through collapse_all_sequences and collapse_root_stack_to no element is
+    taken out of a node's `children` vector unless that very element is placed again (pushed) later on the path.  The two functions only
+    move whole nodes from root_stack into the children of the entry below; the placeholder a trailing separator pushed is an element
+    ("an absent element ... is the empty value") and stays."""
+    n_paths = 0
+    for name in ('tree::collapse_all_sequences', 'tree::collapse_root_stack_to'):
+        g = prog.fn(name)
+        if g is None:
+            ctx.unrecognised('S5.10', name.split('::')[-1], 'missing', '%s not found' % name)
+            continue
+        it = Interp(prog, hook=opaque_hook(), loop_bound=1)
+        try:
+            paths = it.paths(g, [SYM('root_stack'), SYM('root'), SYM('sequence_operator'), SYM('arg3'), SYM('arg4')][:g.arg_count])
+        except Budget as e:
+            ctx.unrecognised('S5.10', name.split('::')[-1], 'budget', str(e))
+            continue
+        bad = []
+        for ret, eff in paths:
+            n_paths += 1
+            calls = [e for e in eff if not e[0].startswith('<')]
+            for i, e in enumerate(calls):
+                nm = e[0].split('::')[-1].split('#')[0]
+                a = e[2]
+                if nm in REMOVERS and a and isinstance(a[0], tuple) and a[0][0] == 'proj' and a[0][2][-1:] == ('children',):
+                    res = e[4] if len(e) > 4 else None
+                    placed = res is not None and any(c_[0].split('::')[-1].split('#')[0] in ('push', 'insert', 'extend') and any(isinstance(x_, tuple) and has_subterm(x_, res) for x_ in c_[2][1:]) for c_ in calls[i + 1:])
+                    if not placed:
+                        bad.append((nm, fmt(a[0])[:100], e[3]))
+        for nm, recv, sp in bad[:3]:
+            ctx.violation('S5.10', name.split('::')[-1], 'drops-element', 'an element is removed from a children vector (%s on %s) and not placed again on that path: collapsing drops an element of a sequence' % (nm, recv), span=sp)
+        if not bad:
+            ctx.ok('S5.10', name.split('::')[-1], 'no path removes an element from a children vector without placing it again', span=g.span)
+    ctx.floor('S5.10', 'collapse_paths', n_paths, 4)
+
+
 def s53(ctx, prog):
     f = prog.fn('operator::Operator::<NumericTypes>::eval')
     if f is None:
@@ -613,6 +661,29 @@ class _Renamed:
 
     def ok(self, rule, *a, **k):
         return self._ctx.ok(self._rule, *a, **k)
+
+
+class _OnlyInstances(_Renamed):
+    """reports of a shared rule under this property's rule id, restricted to the named instances (the part of the shared rule that is
+    about this property's clause)"""
+    def __init__(self, ctx, rule, instances):
+        _Renamed.__init__(self, ctx, rule)
+        self._instances = set(instances)
+
+    def check(self, cond, rule, inst, *a, **k):
+        if inst in self._instances:
+            return self._ctx.check(cond, self._rule, inst, *a, **k)
+
+    def violation(self, rule, inst, *a, **k):
+        if inst in self._instances:
+            return self._ctx.violation(self._rule, inst, *a, **k)
+
+    def ok(self, rule, inst, *a, **k):
+        if inst in self._instances:
+            return self._ctx.ok(self._rule, inst, *a, **k)
+
+    def floor(self, *a, **k):
+        pass
 
 
 def s56(ctx, prog):
